@@ -226,7 +226,7 @@ def contextualize_report(submission, filename='answer.py', clear=True,
             :py:data:`~pedal.core.report.MAIN_REPORT`).
     """
     if not isinstance(submission, Submission):
-        submission = Submission(files={filename: submission})
+        submission = Submission(files={filename: submission}, main_file=filename)
     if clear:
         report.clear()
     report.contextualize(submission)
